@@ -113,7 +113,27 @@ def run_cases(run, cases, label, use_oracle=True):
                         if norm(rk.log) == norm(r["calls"]):
                             known_variant = True
                             break
-                if norm(ref.log) != norm(r["calls"]) and known_variant:
+                late_variant = False
+                if norm(ref.log) != norm(r["calls"]) and not known_variant:
+                    for lk in ((True, None), (False, True)):
+                        if lk[0] and c["opts"].get("parserfns", True):
+                            continue
+                        for kl, sw in ((False, False), (True, False), (False, True), (True, True)):
+                            rk = G.Ref(lib_for_ref, kludge=kl, trim_first=False, switch_default_wins=sw, opts=c["opts"],
+                                       leak=lk[0], resplit=lk[1])
+                            rk.ev(c["page_ast"], None)
+                            rk.log = [[x[0], x[1], [[k, uq(rk.finish(v) if isinstance(v, str) else v)] for k, v in x[2]]]
+                                      + [uq(rk.finish(y) if isinstance(y, str) else y) for y in x[3:]] for x in rk.log]
+                            if not rk.unsupported and norm(rk.log) == norm(r["calls"]):
+                                late_variant = "c13:unexpanded-parser-function-args-expanded-late" if lk[0] else \
+                                    "c04:substituted-value-with-equals-is-resplit"
+                                break
+                        if late_variant:
+                            break
+                if late_variant:
+                    run.property_failure(late_variant, "hooks were called %r, expected %r" % (r["calls"], ref.log),
+                                         {k: c[k] for k in ("lib", "page", "opts", "title")})
+                elif norm(ref.log) != norm(r["calls"]) and known_variant:
                     run.histogram["c04-known-kludge-seen"] = run.histogram.get("c04-known-kludge-seen", 0) + 1
                 elif norm(ref.log) != norm(r["calls"]) and any(0x10203D <= ord(ch) <= 0x10FFF0 for ch in json.dumps(r["calls"], ensure_ascii=False)):
                     run.property_failure("c13:hook-args-contain-placeholder",
@@ -133,17 +153,24 @@ def run_cases(run, cases, label, use_oracle=True):
                         sig = name
                         break
                 leak_sig = None
-                if not sig and not c["opts"].get("parserfns", True):
-                    for kl, sw in ((False, False), (True, False), (False, True), (True, True)):
-                        r3 = G.Ref(lib_for_ref, kludge=kl, trim_first=False, switch_default_wins=sw, opts=c["opts"], leak=True)
-                        o3 = unquote_marks(r3.finish(r3.ev(c["page_ast"], None)), r["out"])
-                        if not r3.unsupported and o3 == r["out"]:
-                            leak_sig = "c13:unexpanded-parser-function-args-expanded-late"
+                if not sig:
+                    for lk in ((True, None), (False, True)):
+                        if lk[0] and c["opts"].get("parserfns", True):
+                            continue
+                        for kl, sw in ((False, False), (True, False), (False, True), (True, True)):
+                            r3 = G.Ref(lib_for_ref, kludge=kl, trim_first=False, switch_default_wins=sw, opts=c["opts"],
+                                       leak=lk[0], resplit=lk[1])
+                            o3 = unquote_marks(r3.finish(r3.ev(c["page_ast"], None)), r["out"])
+                            if not r3.unsupported and o3 == r["out"]:
+                                leak_sig = "c13:unexpanded-parser-function-args-expanded-late" if lk[0] else \
+                                    "c04:substituted-value-with-equals-is-resplit"
+                                break
+                        if leak_sig:
                             break
                 squash = lambda t_: re.sub(r"\s+", "", t_).lower()
                 if leak_sig:
-                    run.property_failure(leak_sig, "output %r, reference %r: calls inside the arguments of an unexpanded parser "
-                                         "function were expanded after the value was substituted into a template body"
+                    run.property_failure(leak_sig, "output %r, reference %r: known deviation (late expansion inside an unexpanded "
+                                         "parser function / a substituted value with '=' re-split as a named argument)"
                                          % (r["out"], want), {k: c[k] for k in ("lib", "page", "opts", "title")})
                     sig = "handled"
                 if sig == "handled":
